@@ -35,6 +35,20 @@ def c19_classify(inp, out):
     return ks
 
 
+def c09_classify(inp, out):
+    ks = ["proto:" + inp.split("|")[0]]
+    for op in inp.split("|", 1)[1].split(";"):
+        f = op.split(" ")
+        ks.append("op:" + f[0] + (":" + f[2] if f[0] in ("in", "out") else ""))
+    for o in out.split("|")[:-1]:
+        ks.append("out:" + o.split(" ")[0])
+        for w in o.split(" ")[1:]:
+            if ":" in w:
+                for st in w.split(":")[1].split(","):
+                    ks.append("state:" + st)
+    return ks
+
+
 PROPS = {
     "C11": {
         "lean_files": ["AriesVerif/C11/Spec.lean", "AriesVerif/C11/Model.lean", "AriesVerif/C11/Props.lean",
@@ -84,5 +98,23 @@ PROPS = {
         "assumptions": ["one wallet.New instance per operation (as the REST/command controllers do)",
                         "Metadata content type stands for all content types (same contentStore code path)",
                         "DidComm wrapper methods are out of scope (they delegate to the guarded Wallet methods)"],
+    },
+    "C09": {
+        "lean_files": ["AriesVerif/C09/Spec.lean", "AriesVerif/C09/Model.lean", "AriesVerif/C09/Props.lean",
+                       "AriesVerif/C09/Drv.lean"],
+        "lake_targets": ["AriesVerif"],
+        "extract": [{"args": ["states"], "out": "States.lean"}],
+        "classify": c09_classify,
+        "nontrivial": lambda inp, out: out.count(":") >= 2,
+        "shrink": {"field_sep": "|", "op_sep": ";", "fields": [1]},
+        "thorough_seeds": 2,
+        "rule": "transition tables of all five protocols regenerated by running CanTransitionTo / nextState on the complete domain; "
+                "seeded message sequences (inbound / outbound messages of every type, fresh and reused threads, duplicates, out of "
+                "order, every continue option / stop decision) against the real present-proof and issue-credential services "
+                "(v2 and v3); non-trivial = at least two states were announced; distinct (input, outcome) pairs",
+        "trusted_base": ["recording messenger / harness-owned store and event channels", "verif hooks VerifSync (listener barrier) "
+                         "and the table enumeration exports", "hand-written Execute tables (ppExec, icExec) of the model"],
+        "assumptions": ["didexchange / connection / introduce are decided at table level only (their service loops are driven in C10)",
+                        "messenger never fails; middleware is the default one"],
     },
 }
